@@ -165,6 +165,8 @@ def run_check(pid, tier, seed, replay=None):
 
     wall = time.time() - t0
     level = getattr(spec, "LEVEL", "proof")
+    if level not in ("exploration", "fault_enumeration", "model_checking", "proof", "translation_validation", "other"):
+        level = "other"
     cov = {
         "obligations": len(theorems), "discharged": discharged,
         "checker_cmd": "make -C coq %s ; coqc Print Assumptions audit (lib/vlib.py:audit_assumptions)" % " ".join(targets),
